@@ -93,6 +93,7 @@ type simscreen struct {
 	front     []SimCell
 	back      CellBuffer
 	clear     bool
+	resized   bool // SetSize changed the size; the next Show/Sync reports it
 	cursorx   int
 	cursory   int
 	cursorvis bool
@@ -314,7 +315,8 @@ func (s *simscreen) Size() (int, int) {
 func (s *simscreen) resize() {
 	w, h := s.physw, s.physh
 	ow, oh := s.back.Size()
-	if w != ow || h != oh {
+	if w != ow || h != oh || s.resized {
+		s.resized = false
 		s.back.Resize(w, h)
 		ev := NewEventResize(w, h)
 		s.postEvent(ev)
@@ -412,6 +414,9 @@ func (s *simscreen) SetSize(w, h int) {
 		}
 	}
 	s.cursorx, s.cursory = -1, -1
+	if w != s.physw || h != s.physh {
+		s.resized = true
+	}
 	s.physw, s.physh = w, h
 	s.front = newc
 	s.back.Resize(w, h)
